@@ -572,7 +572,7 @@ func (r *Run) jobMain(j *JobRec) int {
 
 	switch j.Phase {
 	case "split":
-		chunks := FSplit(r.Prog, fc, st, fargs)
+		chunks := FSplit(r.Prog, fc, st, fargs, files)
 		defs := make([]map[string]interface{}, len(chunks))
 		for i, c := range chunks {
 			d := map[string]interface{}{}
@@ -628,7 +628,7 @@ func (r *Run) jobMain(j *JobRec) int {
 			j.ChunkOuts, _ = ParseJSON(raw)
 		}
 		r.checkArgFiles(j, j.ChunkOuts)
-		jargs := map[string]interface{}{"args": fargs, "chunk_defs": stripDunderList(j.ChunkDefs), "chunk_outs": r.normFiles(j.ChunkOuts)}
+		jargs := map[string]interface{}{"args": fargs, "chunk_defs": r.normFiles(stripDunderList(j.ChunkDefs)), "chunk_outs": r.normFiles(j.ChunkOuts)}
 		outs := FOuts(r.Prog, fc, st.Name, "join", jargs, st.Outs, files)
 		j.Outs = outs
 		r.writeOuts(j, md, outs, st.Outs, fault)
@@ -641,6 +641,15 @@ func (r *Run) jobMain(j *JobRec) int {
 	r.checkArgFiles(j, args)
 	for i := n0; i < len(j.MissingFiles); i++ {
 		j.MissingFiles[i] = "AT-END:" + j.MissingFiles[i]
+	}
+
+	switch fault {
+	case "late-error":
+		// everything was done and written - outputs, chunk definitions, files - and
+		// then the stage code failed (in its teardown, say)
+		return r.jobFail(j, md, "errors", "Traceback: simulated failure at the very end of "+j.Stage)
+	case "late-transient-error":
+		return r.jobFail(j, md, "errors", "signal: simulated transient failure at the very end of "+j.Stage)
 	}
 
 	// --- completion (mrjob done/Complete) ---
